@@ -11,6 +11,7 @@ package http
 
 import (
 	"context"
+	"sync"
 	"time"
 
 	"github.com/fasthttp/websocket"
@@ -84,6 +85,9 @@ type streamCoreConfig struct {
 // streamCore is the common functionality implemented by both the client and server
 // streams.
 type streamCore[I, O freighter.Payload] struct {
+	// peerCloseMu guards peerCloseErr: the terminal result is written by the receiving
+	// goroutine and consulted by the sending one.
+	peerCloseMu        sync.Mutex
 	peerCloseErr       error
 	serverShutdownSig  <-chan struct{}
 	normalShutdownSig  chan struct{}
@@ -114,12 +118,20 @@ func (c *streamCore[I, O]) receiveRaw() (WSMessage[I], error) {
 	return msg, c.codec.DecodeStream(context.TODO(), r, &msg)
 }
 
+func (c *streamCore[I, O]) terminal() error {
+	c.peerCloseMu.Lock()
+	defer c.peerCloseMu.Unlock()
+	return c.peerCloseErr
+}
+
 func (c *streamCore[I, O]) Receive() (I, error) {
-	if c.peerCloseErr != nil {
+	if err := c.terminal(); err != nil {
 		var i I
-		return i, c.peerCloseErr
+		return i, err
 	}
 	msg, err := c.receiveRaw()
+	c.peerCloseMu.Lock()
+	defer c.peerCloseMu.Unlock()
 	if err != nil {
 		if websocket.IsCloseError(
 			err,
